@@ -152,6 +152,11 @@ def gen_recipe(rng: Rng, tier: str, idx: int) -> dict:
     for e in inits:
         if e.get("ext_file") == "sub/@DATA@":
             e["ext_file"] = "sub/" + fname + ".data"
+    if rng.chance(0.12):
+        # a small STRING initializer (labels / vocabulary): never externalised, has to survive the save inline
+        inits.append({"name": f"labels_{len(inits)}", "dtype": "STRING", "shape": [rng.randint(1, 4)], "kind": "string",
+                      "where": rng.weighted(WHERE) if allow_sub else "main", "fill": rng.u64() & 0xFFFFFFFF,
+                      "as_input": False, "used": False, "as_output": False, "meta": False})
     if inits and rng.chance(0.08):
         big = [e for e in inits if e["kind"] in ("np", "lazy", "proto") and "share_with" not in e
                and not any(x.get("share_with") == inits.index(e) for x in inits)]
@@ -204,6 +209,10 @@ def make_tensor(e: dict, sandbox: str):
     import onnx_ir as ir
 
     dtype, shape, kind = e["dtype"], e["shape"], e["kind"]
+    if kind == "string":
+        r = Rng(e["fill"])
+        strs = [r.choice([b"cat", b"dog", b"", b"a longer label", "\u00e9t\u00e9".encode()]) for _ in range(shape[0])]
+        return ir.StringTensor(strs, shape=ir.Shape(shape), name=e.get("tensor_name", e["name"])), ("STRINGS", strs)
     raw = _raw_bytes(dtype, shape, e["fill"])
     dt = ir.DataType[dtype]
     name = e.get("tensor_name", e["name"])
